@@ -26,4 +26,11 @@ PROPS = {
         "trusted_base": COMMON_TB + ["net/url.Parse and URL.Query modelled by a grammar-restricted splitter", "path/filepath.Clean re-implemented in the model", "strings.EqualFold modelled on ASCII"],
         "assumptions": ["query strings in one letter case (as the property's quantifier says)", "case variants are ASCII"],
     },
+    "C13": {
+        "level_text": "Lean 4 refinement theorem: for every history of Append/Contains/Remove/Count calls over a pool whose comparison answers true exactly on identical pool elements (the 'distinct identity' premise), from any duplicate-free start, final contents and every output equal those of a duplicate-free insertion-ordered list (append-if-absent, membership, erase); invariants (no duplicates, members from the pool) for every reachable state; corollaries: idempotent append, appended => contained, removed => not contained, append only extends at the end, remove yields a sublist. Remove's 'last match' loop is modelled as written and proved equal to erase under the premise. Generic in the comparison, so it covers item lists (ItemsEqual) and IRI lists (IRI.Equals on links).",
+        "level_note": "Trusted: Lean kernel (propext, Quot.sound), Go harness. The premise PoolOK for concrete pools is the business of C09/C14; here it is a hypothesis. ItemsEqual on bare (id+type) items is modelled by a three-line function in the driver, tied by the correspondence (including pools with equivalent ids). Go slice aliasing of Remove's in-place splice is not modelled (values only).",
+        "technique": "Lean 4 proof: refinement of the collection operations to an insertion-ordered set by induction over histories with a no-duplicates invariant; correspondence by exhaustive (bounded) and random histories on all six kinds",
+        "trusted_base": COMMON_TB + ["Go slice/append semantics modelled as list operations (no aliasing)"],
+        "assumptions": ["pool items have pairwise distinct identity (premise of the property); IRI lists have no Remove (their item-list view is a converting copy)"],
+    },
 }
